@@ -183,6 +183,10 @@ func ClassifyFail(op string, err error, panicked bool) string {
 		if errors.Is(err, concurrency.ErrLocked) || errors.Is(err, redislock.ErrNotObtained) {
 			return "FBusy"
 		}
+		// the deadline fired inside the tryAcquire RPC (lost reply, EtcdLock.LAcqLost)
+		if errors.Is(err, context.DeadlineExceeded) || status.Code(err) == codes.DeadlineExceeded {
+			return "FTimeout"
+		}
 	case OpLock:
 		if errors.Is(err, context.DeadlineExceeded) || errors.Is(err, redislock.ErrNotObtained) ||
 			errors.Is(err, os.ErrDeadlineExceeded) || status.Code(err) == codes.DeadlineExceeded {
